@@ -1240,25 +1240,42 @@ def status_relation(st: int, base, r, bug: bool = False) -> bool:
     """`base`: the outcome of a test case without a status line; `r`: the outcome of the same test case with the status st"""
     if not documented_outcome(r):
         return False
-    same = _normalised_report(r, _STATUS_LINES) == _normalised_report(base, 0)
+    ident, rc, message = _normalised_report(r, _STATUS_LINES)
+    base_ident, base_rc, base_message = _normalised_report(base, 0)
+    # (the message of a failing assertion describes what it found - which may be the test case file itself, now two lines
+    # longer: it is not compared)
+    same_message = base_ident == 'FAIL' or message == base_message
+    same_actions = r['process_starts'] == base['process_starts'] and r['sandboxes'] == base['sandboxes']
+    same = ident == base_ident and rc == base_rc and same_message and same_actions
     if st == ST_PASS:
         return same
     if st == ST_FAIL:
-        if base['ident'] in ('PASS', 'FAIL') or (bug and base['ident'] != 'SYNTAX_ERROR'):
+        if base_ident in ('PASS', 'FAIL') or (bug and base_ident != 'SYNTAX_ERROR'):
             # seeded oracle error: "expected to fail: either it fails, or it unexpectedly passes"
-            want = 'XFAIL' if base['ident'] == 'FAIL' else 'XPASS'
-            return (r['ident'] == want and r['rc'] == 33 and _normalised_report(r, _STATUS_LINES)[2] == _normalised_report(base, 0)[2]
-                    and r['process_starts'] == base['process_starts'] and r['sandboxes'] == base['sandboxes'])
+            return ident == ('XFAIL' if base_ident == 'FAIL' else 'XPASS') and rc == 33 and same_message and same_actions
         return same
     # SKIP: not executed
     if r['process_starts'] != 0 or r['sandboxes'] != 0:
         return False
     if _found_by_reading_the_file(base):
         return same
-    if r['ident'] == 'SKIPPED':
-        return r['rc'] == 0 and r['stderr'] == ''
+    if ident == 'SKIPPED':
+        return rc == 0 and message == ''
     # the configuration phase is what sets the status: a mistake that shows there may still show
-    return same and 'In [conf]\n' in base['stderr']
+    return same and 'In [conf]\n' in base_message
+
+
+_BASE_RUNS = {}
+
+
+def _run_base(text: str):
+    """the outcome of the test case without a status line; kept per process (keyed on the concrete text): every status is
+    compared with it"""
+    if text not in _BASE_RUNS:
+        if len(_BASE_RUNS) > 200:
+            _BASE_RUNS.clear()
+        _BASE_RUNS[text] = cli.run_cli(text)
+    return _BASE_RUNS[text]
 
 
 def _pre_k6(i: int, st: int) -> bool:
@@ -1266,6 +1283,8 @@ def _pre_k6(i: int, st: int) -> bool:
     lo, hi = c['range']
     if not (lo <= i < hi and 0 <= st < len(STATUS)):
         return False
+    if c.get('status_sample') and (st == ST_PASS or st == ST_SKIP) and i % 4 != st:
+        return False  # quick tier: no status and FAIL for every mutant, PASS and SKIP for every fourth
     m = ob.pick(_mutants(c['level'])[lo:hi], i - lo)
     for region in g.regions_of(m[1], m[3]):
         if ob.excluded(region):
@@ -1285,10 +1304,10 @@ def k6_cli(i: int, st: int) -> bool:
     if c.get('oracle_bug') == 'all-are-mistakes':
         exp = g.MISTAKE  # seeded oracle error: every mutant is claimed to be a mistake
     case, first, use_line = g.case_text(phase, text, act, use=use)
-    r = cli.run_cli(case)
     if st != ST_NONE:
         # the same test case with a status: the outcome without one (judged in the path st = none) is carried over
-        return ob.post(status_relation(st, r, cli.run_cli(_with_status(case, st)), c.get('oracle_bug') == 'status'))
+        return ob.post(status_relation(st, _run_base(case), cli.run_cli(_with_status(case, st)), c.get('oracle_bug') == 'status'))
+    r = _run_base(case)
     if not documented_outcome(r):
         return ob.post(False)
     ident, err = r['ident'], r['stderr']
@@ -1489,16 +1508,16 @@ def k7_document(i: int, st: int) -> bool:
     if st != ST_NONE:
         # the same test case with a status: the outcome without one (judged in the path st = none) is carried over
         text = ob.pick({'odd': DOC_ODD, 'latest': DOC_LATEST, 'mistakes': DOC_MISTAKES}[c['odd']], i)[1]
-        return ob.post(status_relation(st, cli.run_cli(text), cli.run_cli(_with_status(text, st)), c.get('oracle_bug') == 'status'))
+        return ob.post(status_relation(st, _run_base(text), cli.run_cli(_with_status(text, st)), c.get('oracle_bug') == 'status'))
     if c['odd'] == 'odd':
         name, text = ob.pick(DOC_ODD, i)
-        r = cli.run_cli(text)
+        r = _run_base(text)
         return ob.post(documented_outcome(r))
     if c['odd'] == 'latest':
         item = ob.pick(DOC_LATEST, i)
         name, text, region = item[:3]
         line = item[3] if len(item) > 3 else 2
-        r = cli.run_cli(text)
+        r = _run_base(text)
         if name.startswith('glob-pattern-'):
             # a glob pattern has no invalid form in the manual: any documented outcome (but not INTERNAL_ERROR)
             return ob.post(documented_outcome(r))
@@ -1510,7 +1529,7 @@ def k7_document(i: int, st: int) -> bool:
     name, text, idents, line, quoted = ob.pick(DOC_MISTAKES, i)
     if c.get('oracle_bug') == 'identifier':
         idents = VAL
-    r = cli.run_cli(text)
+    r = _run_base(text)
     if not documented_outcome(r) or r['ident'] not in idents or r['rc'] != 65:
         return ob.post(False)
     if r['process_starts'] != 0 or r['sandboxes'] != 0:
@@ -1847,12 +1866,13 @@ def obligations(tier: str) -> List[Ob]:
     muts = _mutants(level)
     for lo, hi in _chunks(len(muts), 42 if quick else 64):
         bases = sorted({m[0] for m in muts[lo:hi]})
-        obs.append(Ob(name='K6:mutants:%d-%d' % (lo, hi - 1), fn='k6_cli', case=dict(level=level, range=(lo, hi)), kernel='K6',
+        obs.append(Ob(name='K6:mutants:%d-%d' % (lo, hi - 1), fn='k6_cli', case=dict(level=level, range=(lo, hi), status_sample=quick), kernel='K6',
                       selector=True,
                       bound='mutants %d..%d of the catalogue (%d mutants of %d valid instructions; here of the instructions %s): '
                             'token deletion / duplication / transposition / replacement by reserved words, truncation, quote '
                             'imbalance, wrong-type and undefined symbols, invalid / extreme integers, regexes, globs, strings, paths'
-                            % (lo, hi - 1, len(muts), len(g.BASES), [g.line_of(g.BASES[b][1])[:40] for b in bases][:6]) + st_text,
+                            % (lo, hi - 1, len(muts), len(g.BASES), [g.line_of(g.BASES[b][1])[:40] for b in bases][:6]) + st_text +
+                            (' (PASS and SKIP: every fourth mutant)' if quick else ''),
                       timeout=1500, real=REAL_CLI, stubs=cli.STUBS, entry='MainProgram.execute([FILE]) past its argument parser: MainProgram.execute_test_case(settings).report(environment)',
                       outside=('mutants not in the catalogue; processes are not started (exit code 0, no output)',)))
     obs.append(Ob(name='K6:seeded-oracle-error', fn='k6_cli', case=dict(level=0, range=(0, 12), oracle_bug='all-are-mistakes'), kernel='K6',
@@ -1940,6 +1960,7 @@ def obligations(tier: str) -> List[Ob]:
 def selftest(tier: str) -> int:
     """Concrete checks of the harness' own parts against the real thing."""
     n = exc.selftest()
+    n += files.selftest()
     # the valid bases of the grammar are valid: the real program runs them to PASS or FAIL
     for b in g.BASES:
         phase, tokens, act = g.base_parts(b)
@@ -1992,6 +2013,12 @@ ASSUMPTIONS = [
     'K3:replace, K6, K7 [selector]: once the selectors are concrete the real code runs natively on concrete data (CrossHair tracing '
     'suspended, harness/_C18_cli.no_tracing): CrossHair\'s own model of re.sub / Match.expand does not raise like the real engine for '
     'an invalid replacement string; the solver decides the enumeration of the selector space, not the run itself',
+    'K9 [selector]: the trees of files are made on the real file system (regular files, directories, symbolic links) below a scratch '
+    'directory; the self-test checks, with the OS as the judge, that every spelling of a path denotes the file meant and that the '
+    'cycles are cycles; the program is entered through MainProgram.execute([FILE]) with FILE spelled in five ways',
+    'status (K6, K7): the status line is put in a [conf] section of its own in front of the test case, so the line numbers of the '
+    'messages move by two - the comparison with the run without a status allows for exactly that; the message of a failing '
+    'assertion is not compared (it may describe the test case file itself)',
 ]
 OUTSIDE = [
     'every UTF-8 text: the program is run on a finite catalogue of mutants of a grammar of valid test cases (K6, K7); '
